@@ -31,6 +31,7 @@ type Scenario struct {
 	BufSize     int            `json:"bufsize,omitempty"`
 	EOFWithData bool           `json:"eof_with_data,omitempty"`
 	TruncatedIn string         `json:"truncated_inside_value,omitempty"`
+	ReaderKind  int            `json:"reader_kind,omitempty"` // simkit.AsReader
 }
 
 type Engine struct{}
@@ -90,7 +91,7 @@ func execM(cd *common.Codec, sc *Scenario, data []byte, x *simkit.Ctx, allocByte
 			_, r.err = simkit.Feed(cd.NewParser(t), buf, sc.Cuts, true, &x.Clock)
 		case "reader":
 			rd := &simkit.Reader{Data: buf, Sizes: sc.Reads, EOFWithData: sc.EOFWithData, Clock: &x.Clock}
-			_, r.err = cd.ParseReader(rd, t)
+			_, r.err = cd.ParseReader(simkit.AsReader(sc.ReaderKind, rd), t)
 		case "decoder-bytes", "decoder-reader":
 			var dec common.Decoder
 			var rd *simkit.Reader
@@ -98,7 +99,7 @@ func execM(cd *common.Codec, sc *Scenario, data []byte, x *simkit.Ctx, allocByte
 				dec = cd.NewBytesDecoder(buf, t)
 			} else {
 				rd = &simkit.Reader{Data: buf, Sizes: sc.Reads, EOFWithData: sc.EOFWithData, Clock: &x.Clock}
-				dec = cd.NewDecoder(rd, sc.BufSize, t)
+				dec = cd.NewDecoder(simkit.AsReader(sc.ReaderKind, rd), sc.BufSize, t)
 			}
 			// a caller loops until the first error; every successful Next
 			// must have consumed input or delivered events, so the loop is
@@ -194,6 +195,9 @@ func (Engine) Run(c *simkit.Choices, x *simkit.Ctx) *simkit.Violation {
 				sc.Reads = drawReads(c, len(data))
 				sc.EOFWithData = c.Bool()
 				sc.BufSize = common.DrawBufSize(c)
+				if c.N(3) == 0 {
+					sc.ReaderKind = 1 + c.N(simkit.NumReaderKinds-1)
+				}
 				st.Fault("short-read")
 			}
 			st.Eval(1)
@@ -413,6 +417,9 @@ func truncation(c *simkit.Choices, x *simkit.Ctx, cd *common.Codec, f model.Form
 				sc.Reads = drawReads(c, len(data))
 				sc.EOFWithData = c.Bool()
 				sc.BufSize = common.DrawBufSize(c)
+				if c.N(2) == 0 {
+					sc.ReaderKind = 1 + c.N(simkit.NumReaderKinds-1)
+				}
 			}
 			st.Eval(1)
 			st.Fault("truncate")
